@@ -37,7 +37,7 @@ ASSUMPTIONS = [
     "the documented JSON structure is the one of docs/cli_api_usage.rst; 'indices start at 1'",
     "behavioural comparison of the round trip is skipped when the decompile command prints the marked SsbScript fallback (C06) or a text hit by a C02 known finding",
 ]
-CASES = {"quick": 1200, "thorough": 20000}
+CASES = {"quick": 2400, "thorough": 20000}
 N_SUBPROCESS = {"quick": 24, "thorough": 400}
 
 _gaps = st.lists(st.integers(0, 0), min_size=1, max_size=1)
